@@ -387,9 +387,11 @@ def vector_potential_sums(tagger):
                 if isinstance(p, ast.BinOp) and isinstance(p.op, (ast.Add, ast.Sub)):
                     continue    # only maximal sums
                 terms = sum_terms(sub)
-                if not all(isinstance(t, ast.BinOp) and isinstance(t.op, ast.Mult) for s, t in terms):
+                # a term may be a local temporary holding the product: look through it
+                terms = [(s_, fl.inline(t, n.id, depth=1) if isinstance(t, ast.Name) else t) for s_, t in terms]
+                if not all(isinstance(t, ast.BinOp) and isinstance(t.op, ast.Mult) for s_, t in terms):
                     continue
-                avs = [(t, tagger.eval(t, n.id)) for s, t in terms]
+                avs = [(t, tagger.eval(t, n.id)) for s_, t in terms]
                 if len(avs) == 2 and all({'pot', 'dirvec'} <= a.fams for t, a in avs):
                     out.append((sub, avs, st))
     return out
